@@ -149,16 +149,23 @@ def mergeTypedefs : List Core2.Line → List Core2.Line → Option (List Core2.L
         if isOpaqueLine k then mergeTypedefs (kept.filter (fun k => !(lineName k == some nm)) ++ [l]) rest
         else none
 
+/-- the global variables and functions a function body may refer to, with the type of the reference (ir/global.go Type: pointer to the content type) -/
+def genvOf (globals : List Core2.Global) (funcs : List Core3.Func) : Core3.GEnv :=
+  globals.map (fun g => (g.name, Ty.ptr g.ty 0)) ++ funcs.map (fun f => (f.name, Core3.funcRefTy f))
+
 def translate (t : Top) : Option Module :=
-  match (mergeTypedefs [] t.lines).bind Core2.translateTok, mapM' Core3.translate t.funcs, Meta.readLines t.md with
-  | some c2, some fs, some raws =>
+  match (mergeTypedefs [] t.lines).bind Core2.translateTok with
+  | none => none
+  | some c2 =>
+  match mapM' (Core3.translateIn (genvOf c2.globals t.funcs)) t.funcs, Meta.readLines t.md with
+  | some fs, some raws =>
     (match Meta.translate raws with
      | .ok md =>
        if Core2.hasDup (c2.globals.map (·.name) ++ fs.map (·.name)) then none
        else if (fs.flatMap funcNames).all (fun n => (c2.typedefs.map (·.name)).contains n) then some ⟨c2.typedefs, c2.globals, fs, md⟩
        else none
      | .error => none)
-  | _, _, _ => none
+  | _, _ => none
 
 def parse (ls : List Bytes) : Option Module := (readTop (ls.length + 1) ls).bind translate
 
